@@ -18,7 +18,7 @@ NEVER = 10**6
 
 def tkey(i):
     k = 'a' + str(i) * 63
-    menv.ModelHasher.registry[i] = k
+    menv.ModelHasher.registry[('sha256', i)] = k
     return k
 
 
